@@ -199,6 +199,10 @@ class FileSystemLoader:
             else:
                 resolved = load_item.source.local_folder_path / spec
         resolved = resolved.resolve()
+        if resolved.resolve() != resolved:
+            # Non-strict resolution gives up at a symlink loop and leaves the rest of the path
+            # unresolved, including any symlinks in it: only accept a canonical path
+            raise LoadError(f"Load item {resolved} cannot be resolved to a canonical path")
 
         if self.root_folder is not None:
             # Check that resolved folder is inside root
